@@ -27,9 +27,21 @@ func mkc(n int) chan int {
 	return c
 }
 
-type small int8`
+type small int8
 
-var strPool = []string{"", "a", "ab", "é", "aé€", "\xffz", "€\xc3", "z\U0001F600"}
+func tick(n int) int { return vrt.V(9000+n%7, n) }`
+
+var strAlphabet = []string{"a", "z", "é", "€", "\U0001F600", "\xff", "\xc3", "\xe2\x82", "\xed\xa0\x80", "\x80", "\xf0\x9f", "\x00",
+	"\uFFFD", "\u0080", "\u07ff", "\u0800", "\uffff", "\U00010000", "\U0010FFFF", "\xc0\x80", "\xe0\x80\x80", "\xf4\x90\x80\x80", "\xbf", "\x7f"}
+
+func (c *fctx) randString() string {
+	n := c.g.r.Intn(4)
+	s := ""
+	for i := 0; i < n; i++ {
+		s += strAlphabet[c.g.r.Intn(len(strAlphabet))]
+	}
+	return s
+}
 
 func (c *fctx) collName(pool []string) string { return c.fresh(pool) }
 
@@ -96,7 +108,7 @@ func (c *fctx) rangeStmt() []*S {
 		loop.E = v(coll)
 	case "string":
 		valInt = false
-		loop.E = &X{K: XStr, S: strPool[r.Intn(len(strPool))]}
+		loop.E = &X{K: XStr, S: c.randString()}
 		if r.Chance(1, 3) {
 			name := c.fresh([]string{"str", "str2"})
 			pre = append(pre, &S{K: SDecl, ID: c.g.id(), Name: name, E: loop.E})
@@ -274,7 +286,7 @@ func (c *fctx) consumerLoop(pull bool) []*S {
 	if loop.Op == ":=" {
 		loop.Body = append([]*S{{K: SUse, Name: loop.Name}}, loop.Body...)
 	}
-	if c.g.cfg.Quar["redeclare"] == false && loop.Op == ":=" && r.Chance(1, 5) {
+	if c.g.cfg.Quar["redeclare"] == false && r.Chance(1, 5) {
 		// the body re-declares the loop variable at its top level
 		loop.Body = append([]*S{{K: SDecl, Name: loop.Name, E: bin(v(loop.Name), "+", lit(1))}}, loop.Body...)
 		c.g.mark("consumer_body_redeclares_loop_variable")
